@@ -220,12 +220,15 @@ def register(claim, na):
         "in the thorough tier) up to its final hand-over, and z3 decides sum_i coeff_i * P(label_i) = M entry by entry for all entries. "
         "expectation() (row and column vectors) and get_expectation_value (both reverse flags, through the real Wavefunction constructor under the "
         "path condition norm = 1) run on states whose amplitudes are all symbolic; z3 decides value = <psi|M|psi> with M the verifier's tensor-product "
-        "matrix (bit-reversed for reverse_operator=True). get_sparse_operator itself (identity padding, zero operator) and the text hand-over in "
-        "get_pauliop_from_coeffs_and_labels are NOT decided by the solver: ground instances against the dense tensor-product oracle.",
+        "matrix (bit-reversed for reverse_operator=True). get_sparse_operator itself runs on the nine operator shapes with ALL coefficients symbolic and "
+        "paddings n in {default, w, w+1, w+2}: a matrix depending on a symbolic coefficient is carried as coefficient x REAL scipy matrix, so that kron, "
+        "identity, nonzero, COO assembly and format conversions are executed by the real scipy; z3 decides matrix = sum coeff * tensor product entry by entry "
+        "on every path (a coefficient that is exactly zero is a forked path). The text hand-over in get_pauliop_from_coeffs_and_labels is NOT decided by the "
+        "solver: ground instances against the dense tensor-product oracle.",
         "Stubs: in the symbolic-state instances the scipy matrix is the one the real get_sparse_operator returns for the concrete operator and only its "
         "mat-vec is the dense product; in the expansion instances the last call (coefficients formatted into text) is intercepted. Ground numeric "
         "comparisons (all Pauli strings on <= 3 qubits x paddings, 2x2..8x8 matrices, random states, coefficient/label vectors) are counted apart.",
-        "SymTrace path exploration with z3 (coefficients, matrix entries and amplitudes symbolic); ground numeric oracle for the scipy.sparse construction and text clauses",
+        "SymTrace path exploration with z3 (coefficients, matrix entries and amplitudes symbolic; scipy.sparse structure executed by the real scipy under symbolic scalars); ground numeric oracle for the text clause",
         "DESIGN.md §1 E2, §2 C09",
     )
     claim(
